@@ -119,9 +119,9 @@ static inline %s* red_local(struct Red* r) { return &r->data[g_tid]; }
     UNITS.append(Unit(
         name='Reducible_update_' + SFX, src=RED, within=r'class Reducible\b', anchor=r'void update\(const T& rhs\)',
         proto='void Reducible_update_%s(struct Red* self, %s rhs)' % (SFX, T),
-        contract='''__CPROVER_requires(RED_OK(self)%s)
+        contract='''__CPROVER_requires(RED_OK(self) && g_s < GV_MAXT && self->data[g_s] == self->data[g_s]%s)
 __CPROVER_ensures(self->data[g_tid] == MERGE_SPEC(__CPROVER_old(self->data[g_tid]), rhs))
-__CPROVER_ensures((g_s < GV_MAXT && g_s != g_tid) ==> self->data[g_s] == __CPROVER_old(self->data[g_s]))
+__CPROVER_ensures(g_s != g_tid ==> self->data[g_s] == __CPROVER_old(self->data[g_s]))
 __CPROVER_assigns(self->data[g_tid])''' % (' && self->data[g_tid] == self->data[g_tid] && rhs == rhs' if S == 'f64' else ''),
         prelude=[REDP], uses=USES + [IDF],
         inline=['Reducible_merge_' + SFX],
@@ -140,7 +140,7 @@ __CPROVER_ensures(__CPROVER_return_value == &self->data[0] && self->data[0] == g
 __CPROVER_ensures(__CPROVER_forall { unsigned m; (m < GV_MAXT) ==> ((1 <= m && m < self->n) ==> self->data[m] == g_ident) })
 __CPROVER_assigns(__CPROVER_object_whole(self))''' % FOLD_REQ,
         prelude=[REDP, '%s g_pf[GV_MAXT], g_d0[GV_MAXT];  /* ghost: partial folds of the entry slots, entry slots */\n' % T],
-        uses=USES + [IDF], inline=['Reducible_merge_move_' + SFX],
+        uses=USES, inline=[IDF, 'Reducible_merge_move_' + SFX],
         lower=[rx(r'T& lhs = \*data_\.getLocal\(\);', '%s* lhs_p = red_local(self);' % T, 1, 1),
                rx(r'T& rhs = \*data_\.getRemote\(i\);', '%s* rhs_p = red_remote(self, i);' % T, 1, 1),
                rx(r'data_\.size\(\)', 'self->n', 1, 1),
@@ -149,13 +149,13 @@ __CPROVER_assigns(__CPROVER_object_whole(self))''' % FOLD_REQ,
                rx(r'return lhs;', 'return lhs_p;', 1, 1)],
         loops={1: '''
 __CPROVER_assigns(i, __CPROVER_object_whole(self))
-__CPROVER_loop_invariant(1 <= i && i <= self->n && self->n <= GV_MAXT && self->n >= 1 && lhs_p == &self->data[0] && g_tid == 0 && g_ident == gid)
+__CPROVER_loop_invariant(1 <= i && i <= self->n && self->n <= GV_MAXT && self->n >= 1 && lhs_p == &self->data[0] && g_tid == 0 && g_ident == gid && self->n == n0)
 __CPROVER_loop_invariant(self->data[0] == g_pf[i - 1])
 __CPROVER_loop_invariant(__CPROVER_forall { unsigned a; (a < GV_MAXT) ==> ((1 <= a && a < i) ==> self->data[a] == g_ident) })
 __CPROVER_loop_invariant(__CPROVER_forall { unsigned b; (b < GV_MAXT) ==> ((i <= b && b < self->n) ==> self->data[b] == g_d0[b]) })
 __CPROVER_decreases(self->n - i)
 '''},
-        no_flags=nf, timeout=300, ghost_prefix='const %s gid = g_ident;' % T,
+        no_flags=nf, timeout=300, ghost_prefix='const %s gid = g_ident; const unsigned n0 = self->n;' % T,
         inst='T=%s, thread count <= %d (configuration bound); called from thread 0 (outside the parallel region)' % (T, GV_MAXT),
         says='reduce() returns the left fold of all per-thread slots with the merge function, however the updates were distributed, and resets slots 1..n-1 to the identity',
         trusted=['PerThreadStorage<T> modelled as an array of n <= 16 slots (red_local/red_remote in the prelude)']))
@@ -165,15 +165,182 @@ __CPROVER_decreases(self->n - i)
         contract='''__CPROVER_requires(RED_OK(self))
 __CPROVER_ensures(__CPROVER_forall { unsigned m; (m < GV_MAXT) ==> (m < self->n ==> self->data[m] == g_ident) })
 __CPROVER_assigns(__CPROVER_object_whole(self))''',
-        prelude=[REDP], uses=USES + [IDF],
+        prelude=[REDP], uses=USES, inline=[IDF],
         lower=[rx(r'data_\.size\(\)', 'self->n', 1, 1),
                rx(r'\*data_\.getRemote\(i\) = IdFunc::operator\(\)\(\)', '*red_remote(self, i) = IDENT()', 1, 1)],
         loops={1: '''
 __CPROVER_assigns(i, __CPROVER_object_whole(self))
-__CPROVER_loop_invariant(i <= self->n && self->n <= GV_MAXT && self->n >= 1 && g_ident == gid)
+__CPROVER_loop_invariant(i <= self->n && self->n <= GV_MAXT && self->n >= 1 && g_ident == gid && self->n == n0)
 __CPROVER_loop_invariant(__CPROVER_forall { unsigned a; (a < GV_MAXT) ==> (a < i ==> self->data[a] == g_ident) })
 __CPROVER_decreases(self->n - i)
 '''},
-        ghost_prefix='const %s gid = g_ident;' % T,
+        ghost_prefix='const %s gid = g_ident; const unsigned n0 = self->n;' % T,
         inst='T=%s, thread count <= %d' % (T, GV_MAXT),
         says='reset() restores the identity in every slot'))
+
+# GAccumulator<T>::operator+= / operator-=  (T = uint64_t: wrap-around sum)
+SFX, T = 'plus_u64', 'uint64_t'
+REDP_PLUS = [u for u in UNITS if u.name == 'Reducible_update_plus_u64'][0].prelude
+for op, sign, anchor in [('add', '+', r'GAccumulator& operator\+=\(const T& rhs\)'), ('sub', '-', r'GAccumulator& operator-=\(const T& rhs\)')]:
+    UNITS.append(Unit(
+        name='GAccumulator_%s_u64' % op, src=RED, within=r'class GAccumulator\b', anchor=anchor,
+        proto='struct Red* GAccumulator_%s_u64(struct Red* self, uint64_t rhs)' % op,
+        contract='''__CPROVER_requires(RED_OK(self) && g_s < GV_MAXT)
+__CPROVER_ensures(self->data[g_tid] == __CPROVER_old(self->data[g_tid]) %s rhs)
+__CPROVER_ensures(g_s != g_tid ==> self->data[g_s] == __CPROVER_old(self->data[g_s]))
+__CPROVER_ensures(__CPROVER_return_value == self)
+__CPROVER_assigns(self->data[g_tid])''' % sign,
+        prelude=REDP_PLUS, uses=['Reducible_update_plus_u64', 'identity_value_zero_u64'],
+        lower=[rx(r'base_type::update\(', 'Reducible_update_plus_u64(self, ', 1, 1), rx(r'return \*this;', 'return self;', 1, 1)],
+        inst='T=uint64_t (sum modulo 2^64)',
+        says='a %s= x changes the calling thread\'s partial sum by exactly %sx and no other slot (the -= form subtracts)' % (sign, sign),
+        replay=dict(prog='gaccumulator', args=['rhs'], cxxflags=['-DOP=' + ("1" if op == 'add' else "2")], lib=True)))
+
+# ---------------------------------------------------------------------------
+# AtomicHelpers.h: CAS helpers linearise to min / max / add / subtract.
+# Thread-modular: before every atomic step the environment may overwrite the
+# cell with ANY value (GV_RELY_NONE).  Contract: the call performs at most one
+# write; if it writes, the written value is op(value it replaced, argument)
+# and the return value is the value it replaced (the linearisation point is
+# that successful CAS); if it does not write, the returned value is a value it
+# actually read from the cell and op would not have changed it.
+AT = '#define GV_RELY_NONE\n#include "gv_atomic.h"\n'
+MO = [ren('std::memory_order_relaxed', 'memory_order_relaxed')]
+for S, T in [('u64', 'uint64_t'), ('i64', 'int64_t'), ('u32', 'uint32_t')]:
+    DEF = ['GV_WIDTH_MASK=0xffffffffull'] if S == 'u32' else []
+    for nm, cmpop, anchor in [('atomicMax', '<', r'const Ty atomicMax\(std::atomic<Ty>& a, const Ty b\)'),
+                              ('atomicMin', '>', r'const Ty atomicMin\(std::atomic<Ty>& a, const Ty b\)')]:
+        UNITS.append(Unit(
+            name='%s_%s' % (nm, S), src=AH, anchor=anchor,
+            proto='%s %s_%s(gv_atomic* a, %s b)' % (T, nm, S, T),
+            contract='''__CPROVER_requires(__CPROVER_is_fresh(a, sizeof(*a)) && g_lin_count == 0)
+__CPROVER_ensures(g_lin_count <= 1)
+__CPROVER_ensures(g_lin_count == 1 ==> ((%(T)s)g_lin_old %(c)s b && (%(T)s)g_lin_new == b && __CPROVER_return_value == (%(T)s)g_lin_old))
+__CPROVER_ensures(g_lin_count == 0 ==> (__CPROVER_return_value == (%(T)s)g_last_read && !(__CPROVER_return_value %(c)s b)))
+__CPROVER_assigns(a->v, g_lin_count, g_lin_old, g_lin_new, g_last_read, g_last_load_order)''' % dict(T=T, c=cmpop),
+            prelude=AT, defines=DEF, no_flags=['--conversion-check'],
+            lower=MO + [bind('Ty', T, 1),
+                        rx(r'(?<![\w.])a\.load\(', 'gv_load_%s(a, ' % S, 1, 1),
+                        rx(r'(?<![\w.])a\.compare_exchange_weak\(old_a, ', 'gv_cas_weak_%s(a, &old_a, ' % S, 1, 1)],
+            loops={1: '''
+__CPROVER_assigns(old_a, a->v, g_lin_count, g_lin_old, g_lin_new, g_last_read, g_last_load_order)
+__CPROVER_loop_invariant(g_lin_count == 0 && old_a == (%s)g_last_read)
+''' % T},
+            inst='Ty=%s' % T,
+            says='%s linearises: at most one write, which installs the %s of the value it replaced and b and returns the replaced value; otherwise returns a value read from the cell that already dominates b' % (nm, 'maximum' if nm == 'atomicMax' else 'minimum')))
+    for nm, op, anchor in [('atomicAdd', '+', r'const Ty atomicAdd\(std::atomic<Ty>& val, Ty delta\)'),
+                           ('atomicSubtract', '-', r'const Ty atomicSubtract\(std::atomic<Ty>& val, Ty delta\)')]:
+        if S == 'i64':
+            continue  # signed overflow is undefined: the unsigned instantiations are the claim
+        UNITS.append(Unit(
+            name='%s_%s' % (nm, S), src=AH, anchor=anchor,
+            proto='%s %s_%s(gv_atomic* val, %s delta)' % (T, nm, S, T),
+            contract='''__CPROVER_requires(__CPROVER_is_fresh(val, sizeof(*val)) && g_lin_count == 0)
+__CPROVER_ensures(g_lin_count == 1 && (%(T)s)g_lin_new == (%(T)s)((%(T)s)g_lin_old %(o)s delta) && __CPROVER_return_value == (%(T)s)g_lin_old)
+__CPROVER_assigns(val->v, g_lin_count, g_lin_old, g_lin_new, g_last_read, g_last_load_order)''' % dict(T=T, o=op),
+            prelude=AT, defines=DEF, no_flags=['--conversion-check'],
+            lower=MO + [bind('Ty', T, 1),
+                        rx(r'(?<![\w.])val\.load\(', 'gv_load_%s(val, ' % S, 1, 1),
+                        rx(r'(?<![\w.])val\.compare_exchange_weak\(old_val, ', 'gv_cas_weak_%s(val, &old_val, ' % S, 1, 1)],
+            loops={1: '''
+__CPROVER_assigns(old_val, val->v, g_lin_count, g_lin_old, g_lin_new, g_last_read, g_last_load_order)
+__CPROVER_loop_invariant(g_lin_count == 0 && old_val == (%s)g_last_read)
+''' % T},
+            inst='Ty=%s' % T,
+            says='%s linearises: exactly one write, old %s delta (modulo 2^n) over the value it replaced, returning that value' % (nm, op)))
+    # plain (non-atomic) overloads
+    for nm, cmpop, anchor in [('max', '<', r'const Ty max\(Ty& a, const Ty& b\)'), ('min', '>', r'const Ty min\(Ty& a, const Ty& b\)')]:
+        UNITS.append(Unit(
+            name='plain_%s_%s' % (nm, S), src=AH, anchor=anchor,
+            proto='%s plain_%s_%s(%s* a, %s b)' % (T, nm, S, T, T),
+            contract='''__CPROVER_requires(__CPROVER_is_fresh(a, sizeof(*a)))
+__CPROVER_ensures(__CPROVER_return_value == __CPROVER_old(*a) && *a == (__CPROVER_old(*a) %s b ? b : __CPROVER_old(*a)))
+__CPROVER_assigns(*a)''' % cmpop,
+            lower=[bind('Ty', T, 1), rx(r'(?<![\w*])a(?![\w])', '(*a)', 3, 3)],
+            inst='Ty=%s' % T, says='non-atomic %s: the cell becomes the %s of itself and b, the old value is returned' % (nm, nm)))
+
+# ---------------------------------------------------------------------------
+# DynamicBitSet (DynamicBitset.h).  The word vector is reached through a
+# ghost probe: g_w is an arbitrary word index, g_word the content of that word
+# (any other word is out of sight, so "bit g is affected iff ..." for the
+# arbitrary probe bit g_b = 64*g_w + (g_b % 64) is a statement about every bit).
+BSP = '''
+static const uint32_t bits_uint64 = 64;
+struct BitSet { size_t num_bits; } bs;     /* the object (a global) */
+size_t g_b;        /* ghost probe BIT */
+uint64_t g_word;   /* content of the word holding the probe bit */
+#define g_w (g_b / 64)
+#define BV_SIZE ((bs.num_bits + 63) / 64)
+#define PROBE_BIT ((g_word >> (g_b % 64)) & 1)
+static inline size_t bv_size(void) { return BV_SIZE; }
+static inline void bv_fill0(size_t vb, size_t ve)
+{ __CPROVER_assert(vb <= ve && ve <= BV_SIZE, "std::fill range inside the word vector"); if (vb <= g_w && g_w < ve) g_word = 0; }
+static inline void bv_and(size_t idx, uint64_t mask)
+{ __CPROVER_assert(idx < BV_SIZE, "word index in range"); if (idx == g_w) g_word &= mask; }
+'''
+UNITS.append(Unit(
+    name='DynamicBitSet_reset_range', src=BS, within=r'class DynamicBitSet\b', anchor=r'void reset\(size_t begin, size_t end\)',
+    proto='void DynamicBitSet_reset_range(size_t begin, size_t end)',
+    contract='''__CPROVER_requires(bs.num_bits <= ((size_t)1 << 62) && g_b < bs.num_bits && begin <= end && (bs.num_bits == 0 || end <= bs.num_bits - 1))
+__CPROVER_ensures(PROBE_BIT == ((begin <= g_b && g_b <= end) ? 0 : ((__CPROVER_old(g_word) >> (g_b % 64)) & 1)))
+__CPROVER_assigns(g_word)''',
+    prelude=[BSP],
+    lower=[members(['num_bits'], self='bs', arrow='.', minimum=4),
+           rx(r'bitvec\.size\(\)', 'bv_size()', 1, 1),
+           rx(r'std::fill\(bitvec\.begin\(\) \+ vec_begin, bitvec\.begin\(\) \+ vec_end, 0\);', 'bv_fill0(vec_begin, vec_end);', 1, 1),
+           rx(r'bitvec\[bit_index\] &= (~?mask);', r'bv_and(bit_index, \1);', 3, 3)],
+    inst='word vector through the ghost probe word (stub bv_fill0/bv_and in the prelude)',
+    says='range reset (inclusive range, every alignment, all 2^64 positions): bit g is cleared iff begin <= g <= end, every other bit of every word is unchanged; no shift by >= 64; word indices in range; the code\'s own assertions hold',
+    trusted=['bitset word-vector stub: std::fill(begin+vb, begin+ve, 0) zeroes words [vb,ve); bitvec[i] &= m']))
+
+# test / set / reset(i): one atomic word under interference
+BSA = '#define GV_RELY_NONE\n#include "gv_atomic.h"\n' + '''
+static const uint32_t bits_uint64 = 64;
+struct BitSet { size_t num_bits; } bs;
+gv_atomic g_aw;    /* the word bitvec[index / 64] (every other word is untouched: only this one is reachable) */
+size_t g_idx;      /* the index the call is made with */
+static inline gv_atomic* bv_word(size_t i)
+{ __CPROVER_assert(i == g_idx / 64 && i < (bs.num_bits + 63) / 64, "only the word of the addressed bit is accessed, in range"); return &g_aw; }
+#define BIT ((uint64_t)1 << (g_idx % 64))
+'''
+ASG = 'g_aw.v, g_lin_count, g_lin_old, g_lin_new, g_last_read, g_last_load_order'
+UNITS.append(Unit(
+    name='DynamicBitSet_test', src=BS, within=r'class DynamicBitSet\b', anchor=r'bool test\(size_t index\) const',
+    proto='bool DynamicBitSet_test(size_t index)',
+    contract='''__CPROVER_requires(bs.num_bits <= ((size_t)1 << 62) && index < bs.num_bits && index == g_idx && g_lin_count == 0)
+__CPROVER_ensures(g_lin_count == 0 && __CPROVER_return_value == ((g_last_read & BIT) != 0))
+__CPROVER_assigns(%s)''' % ASG,
+    prelude=[BSA], no_flags=['--conversion-check'],
+    lower=MO + [rx(r'bitvec\[bit_index\]\.load\(', 'gv_load(bv_word(bit_index), ', 1, 1)],
+    says='test(i) reads exactly bit i of the word it observed and writes nothing'))
+for nm, anchor, newexpr, cond in [
+        ('set', r'bool set\(size_t index\)', '(g_lin_old | BIT)', '(g_lin_old & BIT) == 0'),
+        ('reset', r'bool reset\(size_t index\)', '(g_lin_old & ~BIT)', '(g_lin_old & BIT) != 0')]:
+    UNITS.append(Unit(
+        name='DynamicBitSet_%s' % nm, src=BS, within=r'class DynamicBitSet\b', anchor=anchor,
+        proto='bool DynamicBitSet_%s(size_t index)' % nm,
+        contract='''__CPROVER_requires(bs.num_bits <= ((size_t)1 << 62) && index < bs.num_bits && index == g_idx && g_lin_count == 0)
+__CPROVER_ensures(g_lin_count <= 1)
+__CPROVER_ensures(g_lin_count == 1 ==> (%s && g_lin_new == %s && __CPROVER_return_value == %s))
+__CPROVER_ensures(g_lin_count == 0 ==> (!(%s) && __CPROVER_return_value == %s))
+__CPROVER_assigns(%s)''' % (cond, newexpr, 'false' if nm == 'set' else 'true',
+                            cond.replace('g_lin_old', 'g_last_read'), 'true' if nm == 'set' else 'false', ASG),
+        prelude=[BSA], no_flags=['--conversion-check'],
+        lower=MO + [rx(r'uint64_t old_val = bitvec\[bit_index\];', 'uint64_t old_val = gv_load(bv_word(bit_index), memory_order_seq_cst);', 1, 1),
+                    rx(r'bitvec\[bit_index\]\.compare_exchange_weak\(\s*old_val, ', 'gv_cas_weak_u64(bv_word(bit_index), &old_val, ', 1, 1)],
+        loops={1: '''
+__CPROVER_assigns(old_val, %s)
+__CPROVER_loop_invariant(g_lin_count == 0 && old_val == g_last_read)
+''' % ASG},
+        says='%s(i) linearises under arbitrary interference: at most one write, which changes exactly bit i of the value it replaced (every other bit of the word preserved) and returns the old bit; otherwise the bit was already in the requested state in a value it read' % nm))
+
+EXPLANATION = ('Each shipped reducer functor, identity functor, Reducible::merge/update/reduce/reset, GAccumulator +=/-=, '
+               'the CAS helpers of AtomicHelpers.h and DynamicBitSet test/set/reset/range-reset is extracted from /repo, '
+               'lowered to C and proved against a contract for all values (floats: all finite values; bit tricks over all 2^64).')
+NOT_DECIDED = ('InsertBag / per-thread containers under concurrency, union-find, DReducible (libdist); float/double sums '
+               '(non-associative: the fold order is the proved one); bitset bulk and/or/xor/count (do_all loops); '
+               '-infinity as an input of GReduceMax (lowest() is not below it).')
+ASSUMPTIONS = ['interference stub stubs/gv_atomic.h: each atomic operation is indivisible; between any two the environment may write any value (GV_RELY_NONE); memory orders recorded, not interpreted',
+               'PerThreadStorage<T> is an array of n <= 16 per-thread slots (configuration bound)',
+               'std::plus/std::max/std::min/std::numeric_limits are what the standard says (typed C helpers / <limits.h>,<float.h> constants)',
+               'floating-point: IEEE-754 binary32/64 as modelled bit-precisely by CBMC; NaN operands excluded; identity laws for finite values']
